@@ -53,6 +53,7 @@ type tsyncScript struct {
 	Unpriv       bool     `json:"unprivileged"`   // the child runs as uid 65534: without no_new_privs the kernel refuses (EACCES), and a nil result is only acceptable if every thread is covered
 	OuterDenyAux bool     `json:"outer_deny_aux"` // the process runs under a filter that answers EPERM to every seccomp(2) operation other than SET_MODE_STRICT / SET_MODE_FILTER (support probes such as GET_ACTION_AVAIL fail, loads work)
 	OuterENOSYS  bool     `json:"outer_enosys"`   // the whole process already runs under a filter that answers ENOSYS to seccomp(2) (as if the kernel lacked it)
+	ExeName      string   `json:"exe_name"`       // the child is started under this executable name (what /proc/<pid>/stat and comm show), e.g. one with blanks and parentheses
 }
 
 type tsyncThread struct {
@@ -319,7 +320,7 @@ func childTSync(args []string) {
 type nnpScript struct {
 	NNP        bool   `json:"nnp"`
 	Flags      uint32 `json:"flags"`
-	Choice     string `json:"choice"`  // stay | move
+	Choice     string `json:"choice"`  // stay | move (at the seccomp seam) | prctl-delay (a tracer holds prctl(2): the goroutine may resume elsewhere)
 	IdleMs     int    `json:"idle_ms"` // number of idle runtime threads to create before the load (move-old) or 0
 	LoaderMain bool   `json:"loader_main"`
 	WireIdle   int    `json:"wire_idle"`  // wire this many goroutines to threads first, so that no idle thread is left (move-new)
@@ -409,6 +410,25 @@ func childNNP(args []string) {
 		}
 		wg.Wait()
 	}
+	if sc.Choice == "prctl-delay" {
+		// the parent runs this child under a tracer that holds every prctl(2) in the kernel for a while. With one P and a
+		// goroutine that never blocks, the runtime takes the P away from the thread sitting in prctl; when the call returns
+		// an unpinned goroutine is queued and resumes on the thread that owns the P - another one. A goroutine wired to
+		// its thread cannot move. Control: the same call from an unpinned goroutine of this process.
+		runtime.GOMAXPROCS(1)
+		go func() {
+			for {
+			}
+		}()
+		done := make(chan struct{})
+		go func() {
+			t0 := gettid()
+			syscall.Syscall6(syscall.SYS_PRCTL, prGetNoNewPrivs, 0, 0, 0, 0, 0)
+			rep.ControlMoved = gettid() != t0
+			close(done)
+		}()
+		<-done
+	}
 	if sc.Choice == "move" {
 		// control: the manoeuvre works on an unpinned goroutine of this very process
 		done := make(chan struct{})
@@ -437,6 +457,10 @@ func childNNP(args []string) {
 			rep.MoveImpossible = !m
 		}
 		rep.SeamTid = gettid()
+		if sc.Choice == "prctl-delay" {
+			rep.Moved = rep.SeamTid != rep.PrctlTid
+			rep.MoveImpossible = !rep.Moved
+		}
 		rep.TargetPreexisted = pre[rep.SeamTid]
 		r, _, _ := syscall.RawSyscall6(syscall.SYS_PRCTL, prGetNoNewPrivs, 0, 0, 0, 0, 0)
 		rep.NNPAtSeam = int(r)
